@@ -1,11 +1,17 @@
 SPEC = {
     'module': 'EV.Props.C07',
     'theorems': ['EV.System.C07_converge', 'EV.System.C07_invariant', 'EV.System.inv_step',
-                 'EV.System.C07_counterexample_stale_subscribe', 'EV.System.C07_counterexample_overtaken'],
-    'suites': ['notifcache', 'system'],
+                 'EV.System.C07_counterexample_stale_subscribe', 'EV.System.C07_counterexample_overtaken',
+                 'EV.SyncLoopT.C07carrier_block', 'EV.SyncLoopT.C07carrier_backout', 'EV.SyncLoopT.C07carrier_confState',
+                 'EV.SyncLoopT.C07carrier_advance', 'EV.SyncLoopT.C07carrier_backup', 'EV.SyncLoopT.C07carrier_flush',
+                 'EV.SyncLoopT.C07carrier_resets', 'EV.SyncLoopT.C07carrier_loop', 'EV.SyncLoopT.C07carrier_consecutive',
+                 'EV.SyncLoopT.C07carrier_first', 'EV.SyncLoopT.C07carrier_reads', 'EV.SyncLoopT.C07carrier_forward'],
+    'suites': ['notifcache', 'system', 'sync'],
+    # of the shared sync suite, C07 relies on the trace replay (touched sets handed to Notifications)
+    'claims': {'sync': {'violation_tags': ['glue'], 'disagreement_tags': ['glue']}},
     'design_ref': 'DESIGN.md §6 C07, §11',
     'assumptions': [
-        'every change of a script hash\'s true status travels in a touched set until _notify_sessions receives it (justified by C01-C03, C08, C20; abstracted as the carrier set)',
+        'the change x / carrier abstraction: a change of a script hash\'s true status is modelled as one event that also puts it into the carrier.  Its block side is proved (C07carrier_loop / _consecutive / _first / _reads: at every Notifications.on_block call the touched set handed over contains every script hash whose confirmed history or UTXO set, as readable from the index at that moment, differs from what was readable at the previous call - the first time: when caught_up was set - for every batching, flush placement and admissible reorganisation; tied to the real task by the trace replay of suite sync), Notifications then drops nothing (C20_no_loss / C20_complete), the mempool side is C08_touched.  Still assumed: the composition of these three theorems with the version abstraction is by hand (a status is a function of confirmed state + mempool summaries), restarts lose all sessions, and the unconfirmed->confirmed transition of a tx is covered from both sides (the block\'s touched list contains its script hashes; the mempool refresh that drops it reports them as well)',
         'a script hash\'s status is abstracted to a version number; the mempool part of the status is read without suspension (true of MemPool.transaction_summaries)',
         'TCP back-pressure, the 30 s notify timeout and cost throttling are not modelled (a session closed by them holds no status)',
         'the cutting of limited_history / _notify_inner into atomic steps is validated on the real classes (suite notifcache), not proved',
